@@ -431,7 +431,14 @@ class Walker:
             return
         must = self.model.live(t, ctx, states=("must",))
         may = self.model.live(t, ctx, states=("may",))
+        since = meta.get("since")
+        if since is not None:
+            # SINCE t: events whose timestamp is at or after t (inclusive), wherever they are stored
+            must = [e for e in must if e.ts >= since]
+            may = [e for e in may if e.ts >= since]
         for row in rows:
+            if since is not None and isinstance(row.get("timestamp"), int) and row["timestamp"] < since:
+                self.v("replay-foreign", li, si, f"{what}: row before SINCE: {row}", k=row.get("k"))
             if row.get("context_id") != ctx or (t and row.get("event_type") != t):
                 self.v("replay-foreign", li, si, f"{what}: row outside the scope: {row}", k=row.get("k"))
         before = len(self.viol)
